@@ -139,11 +139,13 @@ CLAIMED.update({
          "sessions; each schedule runs on one real server with sessions using the same names, different users and row "
          "types; every connection's recording is validated by TLC against the single-connection specification (= what "
          "the same traffic produces on a server serving it alone), and the type maps each connection encoded with must be "
-         "its own. Thorough tier additionally builds the harness with -race.",
+         "its own (also for a connection accepted after another has gone). Around the schedule: a silent peer, a burst of "
+         "connections, overlapping start-ups and logins, many cancel requests, concurrent TLS upgrades, a late connection. "
+         "The harness is built with -race in both tiers.",
          "Trusted: TLC, the harness (gates, hook around Encode, per-connection projection). The race detector is an "
          "auxiliary monitor outside the TLA+ family. Bounds: 2-3 connections, 2-3 message groups each.",
          "TLA+ specs (PgShare, PgConn) + TLC model checking + TLC-generated interleavings replayed on concurrent real "
-         "connections + per-connection TLC trace validation (+ -race monitor in thorough)", "4 C15"),
+         "connections + per-connection TLC trace validation (+ -race monitor)", "4 C15"),
  "C04": ("TLC explores every malformation class in every phase with continuations and end of input on the bounded PgConn "
          "model (no callback ever, close after end of input); the cover, valid sessions with transport faults at every "
          "position, and unclassifiable input (random/mutated bytes, count bombs, gigabyte headers, hostile COPY streams, "
